@@ -26,6 +26,7 @@ type generator struct {
 
 var gens = []generator{
 	{file: "Nucleotide.lean", src: "nucleotide.go", run: genNucleotide},
+	{file: "Arith.lean", src: "utils.go, location.go, seqio/origin.go, seqio/date.go", run: genArith},
 }
 
 func writeIfChanged(path string, content []byte) (bool, error) {
